@@ -34,6 +34,11 @@ fn k_c19_mask_bookkeeping() {
     let w = verif_world::w();
     assert!(w.sig_blocked == b0, "C19.sig.new_blocks_exactly_configured");
     assert!(sfd_mask() == b0, "C19.sig.new_signalfd_mask_is_configured");
+    // the application may block a signal of its own (one the source never hears of) while the source lives
+    const OTHER: u64 = 1 << 1; // SIGHUP
+    let app_blocks_other: bool = kani::any();
+    if app_blocks_other { w.sig_blocked |= OTHER; }
+    let other = if app_blocks_other { OTHER } else { 0 };
     // some of the three signals are pending (sent to the thread while blocked or not)
     let pend: u64 = kani::any(); kani::assume(pend & !ALL3 == 0);
     // a signal that arrives while it is NOT blocked is handled by its default disposition at once
@@ -45,7 +50,7 @@ fn k_c19_mask_bookkeeping() {
                 else if op == 1 { let ok = v_ok!(s.remove_signals(&v1[..n1])); assert!(ok, "C19.sig.remove_ok"); b0 & !b1 }
                 else { let ok = v_ok!(s.set_signals(&v1[..n1])); assert!(ok, "C19.sig.set_ok"); b1 };
     let w = verif_world::w();
-    assert!(w.sig_blocked == after, "C19.sig.blocked_set_is_configured_set");
+    assert!(w.sig_blocked == after | other, "C19.sig.blocked_set_is_configured_set");
     assert!(sfd_mask() == after, "C19.sig.signalfd_mask_is_configured_set");
     assert!(s.mask.bits == after, "C19.sig.internal_mask_is_configured_set");
     // signals configured before and after keep their pending instance for the source
@@ -53,7 +58,8 @@ fn k_c19_mask_bookkeeping() {
     assert!(w.sig_default_fired & kept == 0, "C19.sig.pending_signal_of_kept_set_lost_to_default_disposition");
     assert!(w.sig_pending & kept == pend & kept, "C19.sig.pending_signal_of_kept_set_stays_pending");
     drop(s);
-    assert!(verif_world::w().sig_blocked == 0, "C19.sig.drop_unblocks_everything_configured");
+    assert!(verif_world::w().sig_blocked & ALL3 == 0, "C19.sig.drop_unblocks_everything_configured");
+    assert!(verif_world::w().sig_blocked == other, "C19.sig.drop_touches_only_the_sources_own_signals");
     kani::cover!(op == 2 && kept != 0 && pend & kept != 0);
     kani::cover!(op == 0);
     kani::cover!(op == 1);
